@@ -72,7 +72,10 @@ class OpsMixin:
         if v.ty.kind == "set" and ty.kind == "set" and v.meta and v.meta.get("empty"):
             return self.empty_set(ty.args[0])
         if v.ty.kind == "dict" and ty.kind == "dict" and v.meta and v.meta.get("empty"):
-            return self.empty_dict(ty.args[0], ty.args[1])
+            e = self.empty_dict(ty.args[0], ty.args[1])
+            return Val(ty, e.t)
+        if v.ty.kind == "dict" and ty.kind == "dict" and v.ty.args == ty.args:
+            return Val(ty, v.t)        # dict <-> defaultdict views of the same mapping
         raise Unsupported(f"cannot coerce {v.ty} to {ty}")
 
     def build_collection(self, obj, ty):
@@ -255,7 +258,10 @@ class OpsMixin:
 
     def tuple_get(self, v: Val, i: int) -> Val:
         if v.is_py:
-            return self.lift(v.t[i])
+            x = v.t[i]
+            return x if isinstance(x, Val) else self.lift(x)
+        if v.meta and "elems" in v.meta:
+            return v.meta["elems"][i]          # projection of a tuple built here: the component itself
         srt = self.reg.sort(v.ty)
         return Val(v.ty.args[i], srt.accessor(0, i)(v.t))
 
